@@ -5,6 +5,7 @@ import EpdVerif.Oracle.Pure
 import EpdVerif.Oracle.All
 import EpdVerif.Props.Structural
 import EpdVerif.Big
+import EpdVerif.BigSim
 import EpdVerif.E2E
 import EpdVerif.Lemmas.SsdAddr
 import EpdVerif.Lemmas.UcFlags
@@ -181,6 +182,25 @@ partial def loop (hs ht : IO.FS.Handle) (cfg : Cfg) (n drift : Nat) : IO (Nat ×
             if fs.isEmpty then IO.println s!"V {sc.id} {pr} ok n={k}"
             else for ftxt in fs.eraseDups do IO.println s!"V {sc.id} {pr} FAIL {ftxt}"
             for ftxt in (Big.perOpVerdicts fn sc model).2.eraseDups do IO.println s!"VM {sc.id} {pr} FAIL {ftxt}"
+        -- state-based verdicts on four simulated controllers (C02, C06, C08, C18)
+        if cfg.props.any (fun p => p == "C02" ∨ p == "C08" ∨ p == "C18" ∨ p == "C06") then
+          let vi := BigSim.verdicts cfg.props sc impl BigSim.freshInit
+          let vm := BigSim.verdicts cfg.props sc model BigSim.freshInit
+          for (pr, k, fs) in vi do
+            if cfg.props.contains pr ∧ pr ≠ "C06" then
+              if fs.isEmpty then IO.println s!"V {sc.id} {pr} ok n={k}"
+              else for ftxt in fs do IO.println s!"V {sc.id} {pr} FAIL {ftxt}"
+            else if pr == "C06" ∧ cfg.props.contains pr then
+              -- (the per-operation verdict line of C06 is printed above; failures only here)
+              for ftxt in fs do IO.println s!"V {sc.id} {pr} FAIL {ftxt}"
+          for (pr, _, fs) in vm do
+            if cfg.props.contains pr then
+              for ftxt in fs do IO.println s!"VM {sc.id} {pr} FAIL {ftxt}"
+        if cfg.props.contains "C05" then
+          let (k, fs) := Big.c05Scan sc impl
+          if fs.isEmpty then IO.println s!"V {sc.id} C05 ok n={k}"
+          else for ftxt in fs do IO.println s!"V {sc.id} C05 FAIL {ftxt}"
+          for ftxt in (Big.c05Scan sc model).2 do IO.println s!"VM {sc.id} C05 FAIL {ftxt}"
         if cfg.props.contains "C09" then
           let (k, fs) := Big.c09Scan sc.ops impl
           if fs.isEmpty then IO.println s!"V {sc.id} C09 ok n={k}"
